@@ -197,11 +197,24 @@ type replayFile struct {
 func runReplay(rf *replayFile, tapePath, overlayPath string, tierN int) (string, string) {
 	watchdog := 10
 	timeout := "180s"
-	cmd := exec.Command("go", "test", "-v", "-vet=off", "-count=1", "-timeout", timeout, "-overlay", overlayPath,
-		"-run", "^TestVerifReplay$", "./"+rf.Package)
+	args := []string{"test", "-v", "-vet=off", "-count=1", "-timeout", timeout, "-overlay", overlayPath,
+		"-run", "^TestVerifReplay$", "./" + rf.Package}
+	env := append(goEnv(), "VERIF_TAPE="+tapePath, "VERIF_WATCHDOG="+strconv.Itoa(watchdog), "VERIF_TIER_N="+strconv.Itoa(tierN))
+	if rf.Kind == "race" {
+		// both closures of verifRace run concurrently, repeatedly, under the Go race detector
+		args = append([]string{"test", "-race"}, args[1:]...)
+		args[6] = "600s"
+		env = append(env, "VERIF_RACE_ROUNDS=40", "VERIF_WATCHDOG=300", "GORACE=halt_on_error=0")
+	}
+	cmd := exec.Command("go", args...)
 	cmd.Dir = repoDir
-	cmd.Env = append(goEnv(), "VERIF_TAPE="+tapePath, "VERIF_WATCHDOG="+strconv.Itoa(watchdog), "VERIF_TIER_N="+strconv.Itoa(tierN))
+	cmd.Env = env
 	out, err := cmd.CombinedOutput()
+	if rf.Kind == "race" {
+		pairs := raceReports(string(out))
+		sort.Strings(pairs)
+		return "outcome=race-run pairs=" + strings.Join(pairs, ";"), string(out)
+	}
 	line := ""
 	for _, l := range strings.Split(string(out), "\n") {
 		if strings.HasPrefix(l, "VERIF-REPLAY ") {
@@ -222,8 +235,68 @@ func runReplay(rf *replayFile, tapePath, overlayPath string, tierN int) (string,
 	return line, string(out)
 }
 
+// raceReports extracts, from the output of a -race run, the pair of source positions of every reported data race:
+// for each of the two stacks the innermost frame that lies in the repository (not in the Go runtime, the standard
+// library or a harness file).
+func raceReports(out string) []string {
+	var pairs []string
+	seen := map[string]bool{}
+	for _, rep := range strings.Split(out, "WARNING: DATA RACE")[1:] {
+		if i := strings.Index(rep, "=================="); i >= 0 {
+			rep = rep[:i]
+		}
+		var tops []string
+		for _, stk := range strings.Split(rep, "\n\n") {
+			lines := strings.Split(strings.TrimSpace(stk), "\n")
+			if len(lines) == 0 || !(strings.Contains(lines[0], " by goroutine ") || strings.Contains(lines[0], " by main goroutine")) {
+				continue
+			}
+			if strings.HasPrefix(lines[0], "Goroutine ") {
+				continue
+			}
+			top := ""
+			for _, l := range lines[1:] {
+				l = strings.TrimSpace(l)
+				if !strings.HasPrefix(l, "/") {
+					continue
+				}
+				f := strings.Fields(l)[0]
+				if !strings.HasPrefix(f, repoDir+"/") || strings.Contains(filepath.Base(f), "zz_verif") || strings.Contains(filepath.Base(f), "zz_gosym") {
+					continue
+				}
+				top = strings.TrimPrefix(f, repoDir+"/")
+				break
+			}
+			tops = append(tops, top)
+		}
+		if len(tops) >= 2 && tops[0] != "" && tops[1] != "" {
+			p := []string{tops[0], tops[1]}
+			sort.Strings(p)
+			k := strings.Join(p, "|")
+			if !seen[k] {
+				seen[k] = true
+				pairs = append(pairs, k)
+			}
+		}
+	}
+	return pairs
+}
+
 func confirms(v *replayFile, outcome string) bool {
 	switch v.Kind {
+	case "race":
+		// assert id = "<prop>/race <posA>|<posB>"
+		i := strings.Index(v.AssertID, "/race ")
+		if i < 0 || !strings.HasPrefix(outcome, "outcome=race-run pairs=") {
+			return false
+		}
+		want := v.AssertID[i+len("/race "):]
+		for _, p := range strings.Split(strings.TrimPrefix(outcome, "outcome=race-run pairs="), ";") {
+			if p == want {
+				return true
+			}
+		}
+		return false
 	case "assert":
 		return strings.HasPrefix(outcome, "outcome=assert id="+v.AssertID+" ")
 	case "panic":
@@ -317,6 +390,8 @@ type harnessEvidence struct {
 	SamplePCs   []string       `json:"sample_path_conditions,omitempty"`
 	Inconclusive map[string]int `json:"inconclusive,omitempty"`
 	Candidates  int            `json:"counterexample_candidates"`
+	RaceAccesses int           `json:"shared_accesses_recorded_with_locksets,omitempty"`
+	RaceShared   int           `json:"shared_memory_cells_tracked,omitempty"`
 }
 
 func cmdCheck(args []string) int {
@@ -456,7 +531,7 @@ func cmdCheck(args []string) int {
 			Reach: res.Reach, Branches: res.Stats.Branches, Forks: res.Stats.Forks, Queries: res.SolverQueries,
 			Unknowns: res.Stats.Unknowns, SolverSec: round3(res.SolverSeconds), MaxQuerySec: round3(res.MaxQuerySeconds), Fallbacks: res.Stats.Fallbacks, Steps: res.Stats.Steps, MaxSteps: res.MaxPathSteps,
 			Wall: round3(res.WallSeconds), Truncated: res.Truncated, SamplePCs: res.SamplePCs, Inconclusive: res.Inconclusive,
-			Candidates: len(res.Violations)}
+			Candidates: len(res.Violations), RaceAccesses: res.Stats.RaceAccesses, RaceShared: res.Stats.RaceShared}
 		hev = append(hev, he)
 		totalPaths += res.Paths
 		completedPaths += res.Status["completed"] + res.Status["done"]
@@ -522,6 +597,8 @@ func cmdCheck(args []string) int {
 	replayed := 0
 	seenKey := map[string]int{}
 	confirmedKey := map[string]bool{}
+	raceRuns := map[string][2]string{}
+	var unconfirmedRaces []string
 	var vioLines []string
 	for _, c := range cands {
 		key := c.Harness + "|" + c.AssertID + "|" + c.Known + "|" + c.Kind
@@ -542,7 +619,20 @@ func cmdCheck(args []string) int {
 		path := filepath.Join(replayDir, fmt.Sprintf("%s-%d.json", *prop, replayed+1))
 		data, _ := json.MarshalIndent(rf, "", " ")
 		os.WriteFile(path, data, 0o644)
-		line, full := runReplay(rf, path, goOverlay, tierN)
+		var line, full string
+		tapeKey := ""
+		if c.Kind == "race" {
+			tj, _ := json.Marshal(c.Tape)
+			tapeKey = c.Harness + "|" + string(tj)
+		}
+		if cached, ok := raceRuns[tapeKey]; ok && tapeKey != "" {
+			line, full = cached[0], cached[1]
+		} else {
+			line, full = runReplay(rf, path, goOverlay, tierN)
+			if tapeKey != "" {
+				raceRuns[tapeKey] = [2]string{line, full}
+			}
+		}
 		replayed++
 		rf.Native = line
 		data, _ = json.MarshalIndent(rf, "", " ")
@@ -560,6 +650,11 @@ func cmdCheck(args []string) int {
 			if len(samples) < 12 {
 				samples = append(samples, map[string]interface{}{"harness": c.Harness, "violated": c.AssertID, "tape": c.Tape, "native": line})
 			}
+		} else if c.Kind == "race" && strings.HasPrefix(line, "outcome=race-run") {
+			// a lock-set candidate the race detector did not report in 40 concurrent rounds: not reported (the
+			// lock-set discipline ignores happens-before edges other than locks); listed in the evidence
+			unconfirmedRaces = append(unconfirmedRaces, c.Harness+": "+c.Msg)
+			os.Remove(path)
 		} else {
 			inconclusive = append(inconclusive, fmt.Sprintf("%s: solver counterexample for %s (%s) did not reproduce natively: %s", c.Harness, c.AssertID, c.Kind, line))
 			if *verbose {
@@ -617,6 +712,7 @@ func cmdCheck(args []string) int {
 				"load_seconds":                  round3(eng.LoadSeconds),
 				"inconclusive":                  inconclusive,
 				"known_findings_reproduced":     knownHits,
+				"lockset_candidates_not_confirmed_by_race_detector": unconfirmedRaces,
 			},
 		}
 		os.MkdirAll(filepath.Join(verifDir, "evidence"), 0o755)
